@@ -25,7 +25,37 @@ def make(kind, const):
     return mg.tensor(arr)
 
 
+def alias_const(t):
+    """a CONSTANT tensor that wraps the very array of a non-constant tensor x (astensor(x, constant=True) / tensor(x.data, copy=False, constant=True)) used
+    next to x in one operation: x's gradient must be what it is with a plain copy of the array in the constant's place"""
+    reset_global_state()
+    fns = {"multiply": lambda a, b: mg.multiply(a, b), "add": lambda a, b: mg.add(a, b), "einsum_i,i->": lambda a, b: mg.einsum("i,i->", a, b),
+           "einsum_ij,ij->ij": lambda a, b: mg.einsum("ij,ij->ij", a, b), "einsum_ij,ij->": lambda a, b: mg.einsum("ij,ij->", a, b),
+           "matmul": lambda a, b: mg.matmul(a, b.T if b.ndim == 2 else b), "maximum": lambda a, b: mg.maximum(a, b), "multiply_sequence": lambda a, b: mg.multiply_sequence(a, b, a),
+           "stack": lambda a, b: mg.stack([a, b]), "where": lambda a, b: mg.where(np.array([True, False, True, True][: a.shape[-1]]), a, b)}
+    f = fns[t["fn"]]
+    shape = (3,) if "ij" not in t["fn"] and t["fn"] != "matmul" else (2, 3)
+    vals = np.arange(1.0, 1 + int(np.prod(shape))).reshape(shape) * 0.5
+
+    def grad_with(make_const):
+        x = mg.tensor(vals.copy())
+        c = make_const(x)
+        out = f(x, c) if t["order"] == 0 else f(c, x)
+        out.backward(np.ones(out.shape) * 1.5 if out.shape else 1.5)
+        return x.grad.copy(), (c.grad if isinstance(c, mg.Tensor) else None)
+    makers = {"astensor": lambda x: mg.astensor(x, constant=True), "tensor_nocopy": lambda x: mg.tensor(x.data, constant=True, copy=False), "view": lambda x: mg.tensor(x.data[...], constant=True, copy=False)}
+    g_alias, cg = grad_with(makers[t["alias"]])
+    g_ref, _ = grad_with(lambda x: x.data.copy())
+    if cg is not None:
+        return "constant alias holds a gradient"
+    if not np.allclose(g_alias, g_ref):
+        return "x.grad is %s with the constant alias and %s with a plain copy of the array" % (g_alias.ravel()[:4].tolist(), g_ref.ravel()[:4].tolist())
+    return "ok"
+
+
 def task(t):
+    if t.get("what") == "alias_const":
+        return alias_const(t)
     reset_global_state()
     k = t["kind"]
     track = t["track"]
@@ -59,6 +89,12 @@ def task(t):
             z = make("float64", t["cz"])
             x = make(t["ka"], t["ca"])
             return outcome(lambda: mg.multiply(x, 2.0, out=z, constant=arg))
+        if what == "atleast_multi":
+            # multi-argument atleast_kd: every returned tensor obeys constant= (when given), whatever its number of dimensions
+            a = mg.tensor(np.ones((2, 2, 2), dtype=DT[t["ka"]]), constant=t["ca"]) if t["ka"].startswith("float") else mg.tensor(np.ones((2, 2, 2), dtype=DT[t["ka"]]))
+            b = make(t["ka"], t["ca"])
+            f = getattr(mg, "atleast_%dd" % t["k"])
+            return outcome(lambda: f(a, b, constant=arg)[t["which"]])
         if what == "out_array_binary":
             x = make(t["ka"], t["ca"])
             return outcome(lambda: mg.multiply(x, 2.0, out=np.zeros(3), constant=arg))
